@@ -9,12 +9,31 @@ From FF Require Import Lib.Word Gen.Consts_device_acpi_aml Gen.Consts_aml_tree A
 Import ListNotations.
 Local Open Scope N_scope.
 
+Section ResolveK.
+Variable KI : pstate -> ghost -> Prop.
+Hypothesis K_counters : forall s g a b c, KI s g -> KI (with_counters s a b c) g.
+Hypothesis K_move : forall s g c m tg (t2 : T) g2, TI s g -> KI s g -> In m (kids g c) -> is_sb s c -> is_sb s tg ->
+  pframe (p_tree s) t2 -> shape_eq g g2 ->
+  (forall q, kids g2 q = (if q =? c then remove1 m (kids g c) else kids g q) ++ (if q =? tg then [m] else [])) ->
+  KI (with_tree s t2) g2.
+Hypothesis K_free : forall s g y (t' : T) g', TI s g -> KI s g -> glive g y -> kids g y = [] -> scoped s g y ->
+  fframe y (p_tree s) t' -> (forall p, kids g' p = remove1 y (kids g p)) ->
+  (forall z, glive g' z <-> glive g z /\ z <> y) -> (forall o', tget t' y = Some o' -> o_opcode o' = opFreed) ->
+  KI (with_tree s t') g'.
+Hypothesis K_reloc : forall s g x xo op fl af par tg (t2 : T) g2 v,
+  TI s g -> KI s g -> tget (p_tree s) x = Some xo -> opInfo (o_infoIndex xo) = Some (op, fl, af) ->
+  hasFlag fl aml_pOpFlagNamed = true -> o_opcode xo <> aml_pOpIntScopeBlock -> o_tableHandle xo = p_handle s ->
+  In x (kids g par) -> is_sb s tg -> glive g tg -> kids g x <> [] ->
+  pframe (p_tree s) t2 -> shape_eq g g2 -> roots_iff g g2 ->
+  (forall q, kids g2 q = (if q =? par then remove1 x (kids g par) else kids g q) ++ (if q =? tg then [x] else [])) ->
+  KI (with_tree s (tset t2 (hd InvalidIndex (kids g x)) (set_value v))) g2.
+
 (** what mergeScopeDirectives needs beyond [TI] and a live root *)
 Definition JM (s : pstate) (g : ghost) : Prop :=
-  groot g 0 /\ is_sb s 0 /\ tyS NoX (p_tables s) (p_handle s) (p_tree s) g.
+  groot g 0 /\ is_sb s 0 /\ tyS NoX (p_tables s) (p_handle s) (p_tree s) g /\ KI s g.
 
 Lemma JM_counters s g a b c : JM s g -> JM (with_counters s a b c) g.
-Proof. intros H. exact H. Qed.
+Proof. intros (A & B & C & D). split; [exact A|]. split; [exact B|]. split; [exact C|apply K_counters; exact D]. Qed.
 
 Lemma JM_reloc s g x xo op fl af par tg (t2 : T) g2 v :
   TI s g -> JM s g -> tget (p_tree s) x = Some xo -> opInfo (o_infoIndex xo) = Some (op, fl, af) ->
@@ -24,7 +43,7 @@ Lemma JM_reloc s g x xo op fl af par tg (t2 : T) g2 v :
   (forall q, kids g2 q = (if q =? par then remove1 x (kids g par) else kids g q) ++ (if q =? tg then [x] else [])) ->
   JM (with_tree s (tset t2 (hd InvalidIndex (kids g x)) (set_value v))) g2.
 Proof.
-  intros HT (Hr0 & Hsb0 & Hty) Hxo Erow Enamed Hnsb Hh Hin Htg Hltg Hkx Hpf S2 R2 Hk.
+  intros HT (Hr0 & Hsb0 & Hty & HK) Hxo Erow Enamed Hnsb Hh Hin Htg Hltg Hkx Hpf S2 R2 Hk.
   pose proof (ti_R _ _ HT) as HR.
   set (n := hd InvalidIndex (kids g x)).
   assert (Hn_in : In n (kids g x)) by (unfold n; destruct (kids g x); [contradiction|left; reflexivity]).
@@ -43,7 +62,7 @@ Proof.
             exists o', tget (tset t2 n (set_value v)) i = Some o' /\ o_opcode o' = o_opcode o /\ o_value o' = o_value o).
   { intros i o Ho Hne. destruct (proj2 Hpf _ _ Ho) as (o2 & Ho2 & P1 & _ & _ & _ & _ & _ & _ & P8).
     exists o2. rewrite get_tset. apply N.eqb_neq in Hne. rewrite Hne. auto. }
-  split; [|split].
+  split; [|split; [|split; [|eapply K_reloc; eauto]]].
   - intros q Hq. rewrite Hk in Hq. apply in_app_or in Hq. destruct Hq as [Hq|Hq].
     + revert Hq. destruct (N.eqb_spec q par) as [->|_]; intros Hq; [apply (Hr0 par); eapply remove1_In; exact Hq|apply (Hr0 q); exact Hq].
     + revert Hq. destruct (q =? tg); intros Hq; [|contradiction]. destruct Hq as [E|[]]. subst x. apply (Hr0 par). exact Hin.
@@ -81,29 +100,32 @@ Proof.
 Qed.
 
 (** relocateNamedObjects keeps the invariant of mergeScopeDirectives *)
-Lemma relocate_MI fuel s g : MI NoX s g ->
-  wp True (relocateNamedObjects fuel 0) s (fun _ s' => exists g', MI NoX s' g').
+Notation MIK := (MI KI).
+
+Lemma relocate_MI fuel s g : MIK NoX s g ->
+  wp True (relocateNamedObjects fuel 0) s (fun _ s' => exists g', MIK NoX s' g').
 Proof.
-  intros [A B C D E].
-  eapply wp_weaken; [apply (proj1 (reloc_all JM JM_counters JM_reloc fuel) 0 s g A (conj C (conj D E)) B B (fun _ => D))|auto|].
-  intros r s' (g' & HT' & S' & _ & (C' & D' & E')). exists g'. constructor; auto.
+  intros [A B C D E F].
+  eapply wp_weaken; [apply (proj1 (reloc_all JM JM_counters JM_reloc fuel) 0 s g A (conj C (conj D (conj E F))) B B (fun _ => D))|auto|].
+  intros r s' (g' & HT' & S' & _ & (C' & D' & E' & F')). exists g'. constructor; auto.
   apply (shape_eq_glive _ _ _ S'). exact B.
 Qed.
 
 (** the loop of the resolve passes *)
-Lemma resolve_loop_MI walkFuel : forall fuel s g, MI NoX s g ->
-  wp True (resolve_loop fuel walkFuel) s (fun _ s' => exists g', MI NoX s' g').
+Lemma resolve_loop_MI walkFuel : forall fuel s g, MIK NoX s g ->
+  wp True (resolve_loop fuel walkFuel) s (fun _ s' => exists g', MIK NoX s' g').
 Proof.
   induction fuel as [|fuel IH]; intros s g H; cbn [resolve_loop]; [apply wp_outOfFuel; exact I|].
-  apply wp_bind. eapply wp_weaken; [apply (proj1 (merge_all walkFuel) 0 s g H (mi_live0 _ _ _ H))|auto|].
+  apply wp_bind. eapply wp_weaken; [apply (proj1 (merge_all KI K_counters K_move K_free walkFuel) 0 s g H (mi_live0 _ _ _ _ H))|auto|].
   intros mr s1 (g1 & H1 & _).
   destruct (pres_eqb mr RFailed); [apply wp_ret; eauto|].
   apply wp_bind. eapply wp_weaken; [apply (relocate_MI walkFuel s1 g1 H1)|auto|].
   intros rr s2 (g2 & H2).
   destruct (pres_eqb rr RFailed); [apply wp_ret; eauto|].
   destruct (pres_eqb mr ROk && pres_eqb rr ROk); [apply wp_ret; eauto|].
-  apply wp_bind. apply wp_counters. apply (IH _ g2). apply MI_counters. exact H2.
+  apply wp_bind. apply wp_counters. apply (IH _ g2). apply MI_counters; [exact K_counters|exact H2].
 Qed.
+End ResolveK.
 
 Theorem resolve_loop_never_panics : forall fuel walkFuel s g,
   R (p_tree s) g -> info_valid (p_tree s) -> pool_ok (p_tables s) (p_tree s) ->
@@ -136,11 +158,14 @@ Theorem resolve_loop_never_panics : forall fuel walkFuel s g,
   end.
 Proof.
   intros fuel walkFuel s g HR Hi Hp H0 Hr0 Hsb Hty.
-  assert (HM : MI NoX s g).
-  { constructor; auto; [constructor; auto|]. intros d dobj Hd Hop Hh _. exact (Hty d dobj Hd Hop Hh). }
-  pose proof (resolve_loop_MI walkFuel fuel s g HM) as W. unfold wp in W.
+  set (K0 := fun (_ : pstate) (_ : ghost) => True).
+  assert (HM : MI K0 NoX s g).
+  { constructor; auto; [constructor; auto| |exact I]. intros d dobj Hd Hop Hh _. exact (Hty d dobj Hd Hop Hh). }
+  pose proof (resolve_loop_MI K0 (fun _ _ _ _ _ _ => I) (fun _ _ _ _ _ _ _ _ _ _ _ _ _ _ _ => I)
+                 (fun _ _ _ _ _ _ _ _ _ _ _ _ _ _ => I) (fun _ _ _ _ _ _ _ _ _ _ _ _ _ _ _ _ _ _ _ _ _ _ _ _ _ _ _ => I)
+                 walkFuel fuel s g HM) as W. unfold wp in W.
   destruct (resolve_loop fuel walkFuel s) as [[r s']| |]; auto.
-  destruct W as (g' & [[A B C] D E F G]). exists g'.
+  destruct W as (g' & [[A B C] D E F G _]). exists g'.
   repeat (split; [assumption|]).
   intros d dobj Hd Hop Hh. exact (G d dobj Hd Hop Hh (fun K => K)).
 Qed.
